@@ -70,3 +70,122 @@ Theorem C14_weak_match_only_get_head_unranged : forall e r,
   has_if_none_match_etag e r = has_one_of_etags (get_etag (en_hdrs e)) (get_list ID_IF_NONE_MATCH (rq_hdrs r)) false.
 Proof. exact weak_only_get_head_unranged. Qed.
 Print Assumptions C14_weak_match_only_get_head_unranged.
+
+(* ---- the list walk: for every list of well-formed elements (`*` or [W/]"opaque"), written with any whitespace after
+   an element, any mix of commas/whitespace (empty elements) between, before and after them, Squid iterates over
+   exactly the elements ... *)
+Theorem C14_list_reading_partial : forall es pre post,
+  forallb elem_ok es = true -> forallb is_dl pre = true -> post_ok post = true ->
+  list_items 44 (pre ++ render es ++ post) = map elem_text es.
+Proof. exact list_items_render. Qed.
+Print Assumptions C14_list_reading_partial.
+
+(* ... and hasOneOfEtags answers "some listed element matches the entity-tag" (`*`, or equal opaque-tags and, for the
+   strong comparison, neither tag weak). _partial: elem_ok excludes a backslash inside an opaque-tag, see _refuted. *)
+Theorem C14_etag_list_walk_partial : forall es pre post rep w,
+  forallb elem_ok es = true -> forallb is_dl pre = true -> post_ok post = true ->
+  has_one_of_etags (Some rep) (pre ++ render es ++ post) w = existsb (elem_matches w rep) es.
+Proof. exact has_one_of_render. Qed.
+Print Assumptions C14_etag_list_walk_partial.
+
+(* the partial statement covers exactly the RFC lists without a backslash in an opaque-tag *)
+Theorem C14_partial_hypothesis_is_rfc_minus_backslash : forall e,
+  elem_ok_rfc e = true -> forallb (fun c => negb (c =? 92)) (el_mid e) = true -> elem_ok e = true.
+Proof. exact elem_ok_is_rfc_without_backslash. Qed.
+Print Assumptions C14_partial_hypothesis_is_rfc_minus_backslash.
+
+(* entity without a (valid) ETag: only `*` matches *)
+Theorem C14_etag_list_walk_no_entity_tag : forall es pre post w,
+  forallb elem_ok es = true -> forallb is_dl pre = true -> post_ok post = true ->
+  has_one_of_etags None (pre ++ render es ++ post) w = existsb el_star es.
+Proof. exact has_one_of_render_none. Qed.
+Print Assumptions C14_etag_list_walk_no_entity_tag.
+
+(* REFUTED at full RFC 7232 strength (etagc includes the backslash): the list `"a\", "v1"` contains the entity's tag
+   "v1" but the walk says no (known finding C14-backslash-etag-list, replayed against the running proxy) *)
+Theorem C14_etag_list_walk_refuted :
+  exists es rep, forallb elem_ok_rfc es = true /\
+    existsb (elem_matches false rep) es = true /\ has_one_of_etags (Some rep) (render es) false = false.
+Proof. exact list_walk_refuted. Qed.
+Print Assumptions C14_etag_list_walk_refuted.
+
+(* ... so "412 only when If-Match fails" is refuted too: this request gets 412 although "v1" is listed *)
+Theorem C14_if_match_412_only_on_failure_refuted : forall pd,
+  get_etag (en_hdrs wit_entry) = Some wit_rep /\
+  get_list ID_IF_MATCH (rq_hdrs wit_req) = render wit_es /\
+  existsb (elem_matches false wit_rep) wit_es = true /\
+  hit_verdict pd wit_req wit_entry = V412.
+Proof. exact if_match_412_refuted. Qed.
+Print Assumptions C14_if_match_412_only_on_failure_refuted.
+
+(* ---- revalidation merge: HttpHeader::update in closed form ---- *)
+Theorem C14_update_closed_form : forall old fresh,
+  hdr_update old fresh = filter (fun h => negb (named_in (update_added fresh) h)) old ++ update_added fresh.
+Proof. exact hdr_update_closed. Qed.
+Print Assumptions C14_update_closed_form.
+
+(* after an origin 304: body unchanged; per field name the stored fields are the 304's if it has any of that name
+   (Vary excepted), else the old ones; when needUpdate says "nothing new" the stored values already equal the 304's *)
+Theorem C14_revalidation_merge : forall o fresh,
+  let o' := revalidated_304 o fresh in
+  ob_body o' = ob_body o /\
+  (need_update (ob_hdrs o) fresh = true ->
+     forall n, fields_named n (ob_hdrs o') =
+               if existsb (fun e => ci_eqb (h_name e) n) (update_added fresh)
+               then fields_named n (update_added fresh) else fields_named n (ob_hdrs o)) /\
+  (need_update (ob_hdrs o) fresh = false ->
+     ob_hdrs o' = ob_hdrs o /\
+     forall e, In e (update_added fresh) -> get_named (ob_hdrs o) (h_name e) = Some (get_by_name fresh (h_name e))).
+Proof. exact revalidation_merge. Qed.
+Print Assumptions C14_revalidation_merge.
+
+Theorem C14_vary_not_updated : forall old fresh h,
+  In h (hdr_update old fresh) -> hdr_id h = ID_VARY -> In h old.
+Proof. exact vary_not_updated. Qed.
+Print Assumptions C14_vary_not_updated.
+
+(* the registered-header table still maps each id to one name (needed for "by name"; re-checked against the regenerated table) *)
+Theorem C14_table_ids_unique : ids_unique hdr_table = true.
+Proof. exact table_ids_unique. Qed.
+Print Assumptions C14_table_ids_unique.
+
+(* after an origin 304 the client is answered 304 only when its own If-Modified-Since covers the updated entity *)
+Theorem C14_revalidated_304_only_when_ims_covers : forall pd r old fresh ts fail,
+  let merged := update_on_not_modified (en_hdrs old) fresh in
+  let e' := {| en_status := en_status old; en_hdrs := merged; en_timestamp := ts |} in
+  snd (handle_ims_reply pd r old 304 fresh ts fail) = merged /\
+  (fst (handle_ims_reply pd r old 304 fresh ts fail) = RForward304 <->
+     (0 < rq_ims pd r)%Z /\ not_modified_since pd e' (rq_ims pd r)) /\
+  (fst (handle_ims_reply pd r old 304 fresh ts fail) <> RForward304 ->
+     fst (handle_ims_reply pd r old 304 fresh ts fail) = ROld).
+Proof. exact ims_reply_304. Qed.
+Print Assumptions C14_revalidated_304_only_when_ims_covers.
+
+(* ---- non-vacuity ---- *)
+(* `, W/"a,b"  ,, *` is a well-formed list: two elements, the weak tag "a,b" and `*` *)
+Definition ex_es : list elem :=
+  [ {| el_star := false; el_weak := true; el_mid := [97; 44; 98]; el_ws := [32; 32]; el_dl := [44; 32] |};
+    {| el_star := true; el_weak := false; el_mid := []; el_ws := []; el_dl := [] |} ].
+Example C14_list_example :
+  forallb elem_ok ex_es = true /\
+  [44; 32] ++ render ex_es ++ [] = map N.of_nat [44;32;87;47;34;97;44;98;34;32;32;44;44;32;42]%nat /\
+  list_items 44 ([44; 32] ++ render ex_es ++ []) = [map N.of_nat [87;47;34;97;44;98;34]%nat; [42]].
+Proof. vm_compute. repeat split. Qed.
+(* GET with If-None-Match: W/"v1" and an If-Modified-Since that does NOT cover the entity, entity ETag "v1": 304 *)
+Definition ex_req : creq :=
+  {| rq_get_or_head := true; rq_ranged := false;
+     rq_hdrs := [ one_field [73;102;45;78;111;110;101;45;77;97;116;99;104] [87;47;34;118;49;34];
+                  one_field [73;102;45;77;111;100;105;102;105;101;100;45;83;105;110;99;101] [120] ] |}.
+Example C14_decision_example :
+  hit_verdict (fun _ => 5%Z) ex_req wit_entry = V304 /\
+  hit_verdict (fun _ => 5%Z) {| rq_get_or_head := true; rq_ranged := true; rq_hdrs := rq_hdrs ex_req |} wit_entry = VHit /\
+  hit_verdict (fun _ => 5%Z) {| rq_get_or_head := true; rq_ranged := false;
+                                rq_hdrs := [one_field [73;102;45;77;97;116;99;104] [87;47;34;118;49;34]] |} wit_entry = V412.
+Proof. vm_compute. repeat split. Qed.
+(* a 304 carrying X-Foo replaces both stored x-foo fields, keeps ETag, appends in the 304's order *)
+Example C14_merge_example :
+  let old := [one_field [69;84;97;103] [49]; one_field [120;45;102;111;111] [50]; one_field [88;45;70;111;111] [51]] in
+  let fresh := [one_field [88;45;70;79;79] [52]; one_field [86;97;114;121] [53]] in
+  need_update old fresh = true /\
+  update_on_not_modified old fresh = [one_field [69;84;97;103] [49]; one_field [88;45;70;79;79] [52]].
+Proof. vm_compute. repeat split. Qed.
